@@ -46,6 +46,14 @@ impl ParseInfo {
     }
 
     fn add_cel(&mut self, frame_id: u16, cel: cel::RawCel<RawPixels>) -> Result<()> {
+        if cel.data.layer_index as usize >= self.layers.len() {
+            return Err(AsepriteParseError::InvalidInput(format!(
+                "Cel in frame {} references layer {}, but only {} layers are defined",
+                frame_id,
+                cel.data.layer_index,
+                self.layers.len()
+            )));
+        }
         let cel_id = CelId {
             frame: frame_id,
             layer: cel.data.layer_index,
